@@ -11,6 +11,7 @@ open C04XrefModel
 open C03SencPassModel
 open C03PfxModel
 open C03MetaModel
+open C03SgpdModel
 
 (* ---- H lines: encode histories through the two encoder models (coq/c03/C03EncHistModel.v over the C02 aggregate states); the token
    parsers and digests mirror ocaml/c02_driver.ml *)
@@ -542,6 +543,36 @@ let () =
           | r -> cls_of r in
         if m1 = o1 && m2 = o2 then Printf.printf "OK %s\n" id
         else Printf.printf "MISMATCH %s prog model_r=%s model_sr=%s\n" id m1 m2
+      | ["G"; id; hex; o1; o2] ->
+        (* sgpd through DecodeBox / DecodeBoxSR vs sgpd_prog (C03SgpdModel); grouping type alst is not modelled: not compared *)
+        let bs = bytes_of_hex hex in
+        let off = if S.length hex >= 8 && S.sub hex 0 8 = "00000001" then 20 else 12 in
+        let gt = if S.length hex >= 2 * (off + 4) then S.sub hex (2 * off) 8 else "" in
+        if gt = "616c7374" then Printf.printf "OK %s skip\n" id
+        else begin
+          let ent e = match e with
+            | SgSeig (c, s, ip, iv, kid, civ) ->
+              Printf.sprintf "seig.%d.%d.%d.%d.%s.%s" (int_of_n c) (int_of_n s) (int_of_n ip) (int_of_n iv) (hex_of_bytes kid) (hex_of_bytes civ)
+            | SgRoll d -> Printf.sprintf "roll.%d" (int_of_z d)
+            | SgRap (k, n) -> Printf.sprintf "rap.%d.%d" (int_of_n k) (int_of_n n)
+            | SgUnknown d -> Printf.sprintf "unk.%s" (hex_of_bytes d) in
+          let flds v =
+            Printf.sprintf "%d,%d,%s,%s,%s,[%s],[%s]" (int_of_n v.sg_version) (int_of_n v.sg_flags) (hex_of_bytes v.sg_gt)
+              (dec_of_n v.sg_deflen) (dec_of_n v.sg_defidx) (S.concat "," (L.map dec_of_n v.sg_lens)) (S.concat "," (L.map ent v.sg_entries)) in
+          let m1 = match sgpdbox_r bs with
+            | Ok (v, n) -> Printf.sprintf "ok:%s:S%s:%d" (flds v) (dec_of_n (sgpd_size v)) (int_of_n n)
+            | r -> cls_of r in
+          let m2 = match sgpdbox_sr bs with
+            | Ok ((v, p), e) -> Printf.sprintf "ok:%s:S%s:%d:%s" (flds v) (dec_of_n (sgpd_size v)) (int_of_z p) (b01 e)
+            | r -> cls_of r in
+          (* the theorem C03_sgpd_pair_agree evaluated on this input: whenever the reader-path model accepts, the SR model returns the same value *)
+          let hyp = match sgpdbox_r bs, sgpdbox_sr bs with
+            | Ok (v, _), Ok ((v', _), e) -> if v = v' && not e then "thm=1" else "thm=BROKEN"
+            | Ok _, _ -> "thm=BROKEN"
+            | _ -> "thm=0" in
+          if m1 = o1 && m2 = o2 && hyp <> "thm=BROKEN" then Printf.printf "OK %s %s\n" id hyp
+          else Printf.printf "MISMATCH %s sgpd model_r=%s model_sr=%s %s\n" id m1 m2 hyp
+        end
       | ["L"; id; hex; o1; o2] ->
         let bs = bytes_of_hex hex in
         (* the byte-level loops deliver the box sequence; the one assembly rule that can reject a sequence of these leaves
